@@ -14,4 +14,6 @@ def instances(tier):
     pairs = [(1, 1), (1, 2)] if q else [(1, 1), (2, 2), (1, 2), (3, 3), (2, 3), (0, 1)]
     for a, b in pairs:
         out.append(f"inst!(p_eq_{a}_{b}, {max(a, b) + 3}, check_eq, {a}, {b});")
+    for a, b in ([] if q else [(1, 1), (2, 1), (1, 2)]):  # quick tier: concrete table only (symbolic pairs cost minutes)
+        out.append(f"inst!(p_clonefrom_{a}_{b}, {max(a, b) + 3}, check_clone_from, {a}, {b});")
     return "\n".join(out)
